@@ -1,6 +1,7 @@
 //! Correspondence and property-oracle harness for the sd-jwt-rust verification
 //! (DESIGN.md §4).  usage: harness <property> [--tier quick|thorough] [--seed N] [--out FILE] [--replay FILE]
 
+mod attack;
 mod ctx;
 mod flow;
 mod gen;
